@@ -64,6 +64,10 @@ func (fc *FCtx) resolveSpecType(name string, pkg *packages.Package) (*Sort, type
 		return SStr, nil
 	case "Addr":
 		return fc.U.opaque("Addr"), nil
+	case "Bz":
+		return fc.U.BzSort(), nil
+	case "Store":
+		return fc.U.StoreSort(), nil
 	}
 	tv, err := types.Eval(fc.E.fset, pkg.Types, token.NoPos, name)
 	if err != nil {
@@ -168,6 +172,9 @@ func (fc *FCtx) objVal(obj types.Object) (Val, bool) {
 		ts := typeString(o.Type())
 		if ts == "*cosmossdk.io/errors.Error" || isErrorType(o.Type()) {
 			return Val{T: fmt.Sprint(fc.U.ErrCode(o.Pkg().Path() + "." + o.Name())), S: SInt, GoT: o.Type()}, true
+		}
+		if isByteSliceType(o.Type()) && o.Pkg() != nil && o.Parent() == o.Pkg().Scope() {
+			return fc.keyConst(o), true
 		}
 	}
 	return Val{}, false
@@ -284,6 +291,8 @@ func (fc *FCtx) specEval(n *SNode, env *Env) Val {
 			return Val{T: fmt.Sprintf("(select %s %s)", slEl(b), i.T), S: b.S.Elem, GoT: elemType(b.GoT)}
 		case KMap:
 			return Val{T: fmt.Sprintf("(select %s %s)", mpVal(b), i.T), S: b.S.Elem, GoT: elemType(b.GoT)}
+		case KStore:
+			return Val{T: fmt.Sprintf("(select %s %s)", b.T, fc.toBz(i)), S: fc.U.BzSort()}
 		}
 		oos("spec: indexing %s", b.S.Name)
 	case "call":
@@ -427,6 +436,18 @@ func (fc *FCtx) specCall(n *SNode, env *Env) Val {
 			args = append(args, fc.specEval(a, env))
 		}
 	}
+	if fn.Op == "field" && fn.Args[0].Op == "id" && env.pkg != nil {
+		if _, isVal := fc.lookupName(fn.Args[0].Name, env); !isVal {
+			if p := fc.importByName(env.pkg, fn.Args[0].Name); p != nil {
+				key := p.Path() + "." + fn.Name
+				if c := fc.E.cs.Funcs[key]; c != nil && c.Flags["keyfn"] != "" {
+					evalArgs()
+					return fc.keyFnApply(key, args)
+				}
+				oos("spec: %s.%s is not a declared key function", fn.Args[0].Name, fn.Name)
+			}
+		}
+	}
 	if fn.Op == "field" {
 		// method-style intrinsic: x.Unix(), x.IsZero(), x.Before(y) ...
 		recv := fc.specEval(fn.Args[0], env)
@@ -463,10 +484,33 @@ func (fc *FCtx) specCall(n *SNode, env *Env) Val {
 		return Val{T: app("imax", args[0].T, args[1].T), S: SInt}
 	case "has":
 		evalArgs()
+		if args[0].S.Kind == KStore {
+			return Val{T: fmt.Sprintf("(not (= (select %s %s) bz_nil))", args[0].T, fc.toBz(args[1])), S: SBool}
+		}
 		if args[0].S.Kind != KMap {
 			oos("spec: has() on %s", args[0].S.Name)
 		}
 		return Val{T: fmt.Sprintf("(select %s %s)", mpDom(args[0]), args[1].T), S: SBool}
+	case "enc":
+		evalArgs()
+		return Val{T: app(fc.encFn(args[0].S), args[0].T), S: fc.U.BzSort()}
+	case "dec":
+		tn := n.Args[1]
+		name := tn.Name
+		if tn.Op == "field" {
+			name = tn.Args[0].Name + "." + tn.Name
+		}
+		s, t := fc.resolveSpecType(name, env.pkg)
+		bzv := fc.specEval(n.Args[2], env)
+		return Val{T: app(fc.decFn(s), fc.toBz(bzv)), S: s, GoT: t}
+	case "u64be":
+		evalArgs()
+		fc.u64be()
+		return Val{T: app("u64be", args[0].T), S: fc.U.BzSort()}
+	case "u64of":
+		evalArgs()
+		fc.u64be()
+		return Val{T: app("u64of", fc.toBz(args[0])), S: SInt}
 	case "wrap64":
 		evalArgs()
 		return Val{T: app("wrap_int64", args[0].T), S: SInt}
@@ -487,15 +531,26 @@ func (fc *FCtx) specCall(n *SNode, env *Env) Val {
 			return Val{T: mkSlice(b.S, slLen(b), slCap(b), fmt.Sprintf("(store %s %s %s)", slEl(b), args[1].T, args[2].T)), S: b.S, GoT: b.GoT}
 		case KMap:
 			return Val{T: app("mk_"+b.S.Name, fmt.Sprintf("(store %s %s true)", mpDom(b), args[1].T), fmt.Sprintf("(store %s %s %s)", mpVal(b), args[1].T, args[2].T)), S: b.S, GoT: b.GoT}
+		case KStore:
+			return Val{T: fmt.Sprintf("(store %s %s %s)", b.T, fc.toBz(args[1]), fc.toBz(args[2])), S: b.S}
 		}
 		oos("spec: store on %s", b.S.Name)
 	case "remove":
 		evalArgs()
 		b := args[0]
+		if b.S.Kind == KStore {
+			return Val{T: fmt.Sprintf("(store %s %s bz_nil)", b.T, fc.toBz(args[1])), S: b.S}
+		}
 		if b.S.Kind != KMap {
 			oos("spec: remove on %s", b.S.Name)
 		}
 		return Val{T: app("mk_"+b.S.Name, fmt.Sprintf("(store %s %s false)", mpDom(b), args[1].T), mpVal(b)), S: b.S, GoT: b.GoT}
+	}
+	if env.pkg != nil {
+		if c := fc.E.cs.Funcs[env.pkg.PkgPath+"."+fn.Name]; c != nil && c.Flags["keyfn"] != "" {
+			evalArgs()
+			return fc.keyFnApply(env.pkg.PkgPath+"."+fn.Name, args)
+		}
 	}
 	if sf, ok := fc.E.cs.Specs[fn.Name]; ok {
 		evalArgs()
@@ -615,3 +670,21 @@ func (fc *FCtx) specPureCall(name string, n *SNode, env *Env) (Val, bool) {
 }
 
 var _ = constant.MakeBool
+
+func (fc *FCtx) importByName(pkg *packages.Package, q string) *types.Package {
+	for _, f := range pkg.Syntax {
+		for _, is := range f.Imports {
+			path := strings.Trim(is.Path.Value, "\"")
+			name := ""
+			if is.Name != nil {
+				name = is.Name.Name
+			}
+			for _, imp := range pkg.Types.Imports() {
+				if imp.Path() == path && (name == q || (name == "" && imp.Name() == q)) {
+					return imp
+				}
+			}
+		}
+	}
+	return nil
+}
